@@ -14,6 +14,14 @@ CHECKS = {
    technique="explicit-state BFS over TransactionSet histories; intended store dumped through the real cache API and compared with the reference model after every transition",
    text="Same exhaustive history exploration as C01; after every applied transition the complete intended store, read back through GetKeys + Read(Priority:-1) of the real cache, must equal the union of the live intents of the reference model (path, owner, priority, value), which also shows that intents not named in the transaction are unchanged.",
    note="Bounded by depth and alphabet; the observation is the cache API, not Datastore.Get; timestamps are ignored."),
+ "C03": dict(level="model_checking", engine=E1, design="DESIGN.md §3 C03",
+   technique="explicit-state BFS over histories; a request menu (valid, invalid per constraint class, mixed, with/without replace intent, dry run or not) is executed from every reached state; device calls, cache Modify calls and canonical stores compared; dry runs re-executed for real on a replica of the same state",
+   text="From every state reachable within the depth bound the whole request menu is executed on the real Datastore. For every rejected or dry-run request the recording device must see no Set call, the cache decorator no Modify call, and intended store, running store and device must be identical before and after; an invalid replace intent must surface as error or intent errors; for every successful dry run the same request is run for real on a fresh replica of the same state and the reported updates/deletes must equal what the device receives.",
+   note="Bounded by depth, alphabet and the request menu printed in the evidence; invalid fragments violate one constraint class each independent of the state."),
+ "C05": dict(level="model_checking", engine=E1, design="DESIGN.md §3 C05",
+   technique="explicit-state BFS over histories; every transaction of the alphabet is executed from every reached state and ended by TransactionCancel and by real timer expiry (1 ms timeout), intended store and device compared with the pre-transaction snapshot",
+   text="From every state reachable within the depth bound every transaction of the alphabet (create, change, shrink, re-prioritise, delete, two intents; ruling and shadowed) is applied and then cancelled, and separately left to expire; afterwards the canonical intended store must equal the snapshot taken before the transaction and every path the transaction sent to the device must be back at its previous value or absence.",
+   note="Expiry uses the real timer goroutine with a 1 ms timeout and a 30 s watchdog (one active thread; interleavings of confirm/cancel/expiry are C16). Unmanaged leaves removed by an aggregated list-entry delete are not required to come back."),
  "C09": dict(level="model_checking", engine=E1, design="DESIGN.md §3 C09",
    technique="explicit-state BFS over histories; from every reached state every non-empty subset of the live intents is re-submitted verbatim and the device payload in all encodings plus both stores are compared before/after",
    text="From every state reachable within the depth bound, every non-empty subset of the live intents (ruling, shadowed, mixed) is re-submitted with identical name, priority and content; the recording device renders the tree in all four encodings (8 XML option combinations) and all must be empty, the response must carry no updates/deletes and intended store, running store and device must be identical before and after.",
